@@ -7,6 +7,8 @@ REPO = os.environ.get('HEPH_REPO', '/repo')
 sys.path.insert(0, HERE)
 
 ID = 'C11'
+# modules whose functions must not keep state between calls (pyvc.statecheck.hidden_state_census, syntactic)
+HIDDEN_STATE_MODULES = ['src.translators.java', 'src.translators.kotlin', 'src.translators.groovy', 'src.translators.scala', 'src.translators.base', 'src.ir.type_utils', 'src.ir.types', 'src.ir.ast', 'src.ir.builtins']
 LEVEL = 'proof'
 SIDECARS = []
 FUNCTIONS = []
